@@ -89,6 +89,11 @@ pub fn check_xor(ctx: &mut Ctx, a: &RefAddr, tid: &[u8; 12], through_message: bo
                     let _ = b.add_fingerprint();
                 }
                 let now = *base + std::time::Duration::from_millis(*n * 7);
+                // now and then the agent is a client too, with a request of its own outstanding under
+                // this very id (a hairpinned / loopback Binding): the answer goes out all the same
+                if *n % 7 == 3 {
+                    let _ = agent.send(Message::builder(MessageType::from_class_method(MessageClass::Request, 1), t), "192.0.2.9:3478".parse().unwrap(), now);
+                }
                 match agent.send(b, std_addr, now) {
                     Ok(tr) => {
                         let to_ok = tr.to == std_addr;
@@ -126,7 +131,16 @@ pub fn check_xor(ctx: &mut Ctx, a: &RefAddr, tid: &[u8; 12], through_message: bo
             let owned = b.clone().into_owned();
             let mut dest = vec![0x3Cu8; bytes.len()];
             let n = owned.write_into(&mut dest).unwrap_or(0);
-            if owned.build() != bytes || dest[..n.min(dest.len())] != bytes[..] {
+            // a message (not builder-made) that carries the attribute twice: the first one counts
+            let twice_ok = {
+                let mut a2 = a.clone();
+                a2.port ^= 0x0101;
+                a2.ip[3] ^= 0x55;
+                let second = ref_encode(Kind::XorMappedAddress, &RefVal::Addr(a2), tid).unwrap();
+                let m2 = crate::refimpl::parse::encode(2, 1, tid, &[crate::refimpl::parse::Tlv::new(0x0020, wire.clone()), crate::refimpl::parse::Tlv::new(0x8022, b"x".to_vec()), crate::refimpl::parse::Tlv::new(0x0020, second)]);
+                Message::from_bytes(&m2).ok().and_then(|m| m.attribute::<XorMappedAddress>().ok().map(|d| d.addr(m.transaction_id()))) == Some(std_addr)
+            };
+            if owned.build() != bytes || dest[..n.min(dest.len())] != bytes[..] || !twice_ok {
                 None
             } else {
                 Message::from_bytes(&bytes).ok().and_then(|m| m.attribute::<XorMappedAddress>().ok().map(|d| d.addr(m.transaction_id())))
